@@ -4,8 +4,7 @@ import json
 import os
 
 ROOT = os.path.dirname(os.path.dirname(os.path.abspath(__file__)))
-BASELINE = ("cd /repo && for m in .; do (cd /repo/$m && GOFLAGS=-mod=mod GOPROXY=off go test -json -vet=off -count=1 "
-            "-timeout 25m ./...); done")
+BASELINE = "cd /repo && GOPROXY=off go test -mod=mod -json -vet=off -count=1 -timeout 25m ./..."
 
 COMMON_NOTE = ("Trusted: Coq 8.16.1 kernel + vm_compute; no axioms (Print Assumptions checked every run); the hand-written "
                "Gallina model is tied to /repo by the correspondence check only (Go harness built from the working tree, "
